@@ -1,6 +1,6 @@
 SPECIFICATION Spec
 CONSTANTS
-  MaxMut = 2
+  MaxMut = 3
   Depths = {1, 2, 3}
   Alphabet = {"DeleteChild", "DuplicateChild", "SwapSiblings", "MoveUnderSibling", "Renamespace", "Rename", "AddUnknownChild", "AddKnownSibling", "MoveText", "DropAttr", "EmptyAttr", "HugeAttr", "NegativeAttr", "NonNumericAttr", "UnknownEnum", "Nest"}
   MaxNodes = 12
